@@ -41,9 +41,9 @@ var (
 type kind int
 
 const (
-	kBad kind = iota
-	kFac      // rdf.BlankNodeFactory that is not a string factory
-	kStrFac   // blanknodes.StringFactory
+	kBad    kind = iota
+	kFac         // rdf.BlankNodeFactory that is not a string factory
+	kStrFac      // blanknodes.StringFactory
 	kNode
 	kProv
 	kNoProv
@@ -1031,6 +1031,10 @@ func main() {
 
 	var st stressStats
 	if *replay != "" {
+		if _, err := os.Stat(*replay); err != nil {
+			fmt.Fprintln(os.Stderr, "c14: replay file:", err)
+			os.Exit(2)
+		}
 		hs := readLines(*replay)
 		if hs == nil {
 			// the check script writes JSON replays: take the protocol lines from the recorded cases
